@@ -176,6 +176,8 @@ def plan(tier, seed, args):
                 if variant == "simtrace" and wl == "e2e":
                     for s in scheds:
                         s["window_pct"] = min(s["window_pct"], 10)
+                if variant == "simtrace" and wl != "e2e":
+                    scheds.append({"nthreads": r.choice([2, 3, 4, 5]), "strategy": "round_robin", "chunk_shuffle": 1, "poison": 0xA5, "sseed": r.below(2**62), "preempt_mean": 0, "window_pct": 100, "detect": 1})
                 c = {"workload": wl, "wparams": wp, "scheds": scheds, "group": variant}
                 if wl != "e2e" and i % 4 == 0:
                     c["verify_replay"] = True
@@ -260,6 +262,7 @@ def run_workload(wl, wp, sched, record=False, replay=None):
         poison=sched["poison"],
         window_fn=sched.get("window_fn", 0),
         team_limit=sched.get("team_limit", 0),
+        detect=bool(sched.get("detect")),
         record=record,
         max_steps=MAX_STEPS,
         replay=replay,
@@ -282,7 +285,10 @@ def run_workload(wl, wp, sched, record=False, replay=None):
     finally:
         W.PHASE_HOOK = None
     tr = _sim.trace() if record else None
+    cf = _sim.conflicts() if sched.get("detect") else None
     st = _sim.end()
+    if cf is not None:
+        st["conflicts"] = cf
     return out, st, exc, tr
 
 
@@ -435,7 +441,10 @@ def _run_case(spec):
     bit = [0, 0]
     maxrel = 0.0
     sample = None
-    for sched in spec["scheds"]:
+    queue = list(spec["scheds"])
+    directed_for = set()
+    while queue:
+        sched = queue.pop(0)
         replay = spec.get("replay_trace")
         want_rec = bool(spec.get("record")) or bool(spec.get("verify_replay"))
         out, st, exc, tr = run_workload(wl, wp, sched, record=want_rec, replay=replay)
@@ -467,6 +476,22 @@ def _run_case(spec):
             stats["runs_with_thread_count_changed_between_calls"] += 1
         dg.add("sched", "%x" % st["trace_hash"])
         multi += st["regions_multi"]
+        if sched.get("detect") and not spec.get("replay_trace"):
+            # race-directed search: every region function in which two threads touched one
+            # word within one synchronisation epoch gets dense access pre-emption confined to
+            # it; only a result that then differs from the one-thread result is a violation
+            stats["detector_runs"] += 1
+            cfs = sorted(st.get("conflicts") or [], key=lambda c: (-c["ww"], -c["count"], c["off"]))
+            stats["detector_conflicting_functions"] += len(cfs)
+            r3 = Rng(derive("c10-directed", sched["sseed"]))
+            for c in cfs[:3]:
+                if c["off"] in directed_for or not c["off"]:
+                    continue
+                directed_for.add(c["off"])
+                for _ in range(3):
+                    queue.append({"nthreads": sched["nthreads"], "strategy": r3.choice(["random", "random", "round_robin"]), "chunk_shuffle": sched["chunk_shuffle"], "poison": sched["poison"], "sseed": r3.below(2**62), "preempt_mean": r3.choice([2, 3, 5]), "window_pct": 100, "window_fn": c["off"], "directed": 1})
+        if sched.get("directed"):
+            stats["directed_runs"] += 1
         rp = {"property": PROP, "engine": "simgomp", "case": {"workload": wl, "wparams": wp, "scheds": [sched], "group": spec["group"]}}
         if spec.get("pre_runs"):
             rp["case"]["pre_runs"] = spec["pre_runs"]
@@ -696,6 +721,9 @@ def coverage(done, tier):
             "runs_with_chunk_shuffle": int(tot["runs_with_chunk_shuffle"]),
             "runs_with_team_below_max_threads": int(tot["runs_with_team_below_max_threads"]),
             "runs_with_thread_count_changed_between_calls": int(tot["runs_with_thread_count_changed_between_calls"]),
+            "race_detector_runs": int(tot["detector_runs"]),
+            "race_detector_conflicting_region_functions": int(tot["detector_conflicting_functions"]),
+            "race_directed_runs": int(tot["directed_runs"]),
             "earlier_calls_with_other_team_and_size_in_same_process": int(tot["earlier_calls_in_process"]),
         },
         "team_size_histogram": teams,
